@@ -14,6 +14,8 @@ CONSTANTS Loop = "%s"
  Pre = %s
  SplitEcho = %s
  IdFrom = "%s"
+ Errs = %d
+ ErrLoop = "%s"
  Policies = {"now", "late", "never"}
 INVARIANTS TypeOK OwnReply NoLoss
 %s
@@ -21,8 +23,8 @@ CHECK_DEADLOCK FALSE
 """
 
 
-def rl_cfg(spec, loop, echo, n, prompt, extra, notifs=0, pre=False, split=False, idfrom="reply"):
-    return RL_CFG % (spec, loop, "TRUE" if echo else "FALSE", n, "TRUE" if prompt else "FALSE", notifs, "TRUE" if pre else "FALSE", "TRUE" if split else "FALSE", idfrom, extra)
+def rl_cfg(spec, loop, echo, n, prompt, extra, notifs=0, pre=False, split=False, idfrom="reply", errs=0, errloop="continue"):
+    return RL_CFG % (spec, loop, "TRUE" if echo else "FALSE", n, "TRUE" if prompt else "FALSE", notifs, "TRUE" if pre else "FALSE", "TRUE" if split else "FALSE", idfrom, errs, errloop, extra)
 
 
 def notifications(ctx, thorough, rng):
@@ -92,6 +94,16 @@ def readloop(ctx, thorough):
         if r["violated"] or not r["ok"]:
             ctx.violation("C08:model:NcReadLoop-invariant", "NcReadLoop.tla (Loop = v2, the current code) violates its properties:\n" + r["stdout"][-2500:], {"kind": "model"})
             return
+    # a transient transport error: the loop hands it to the waiting (or next) call and goes on reading; a loop that leaves instead
+    # must be rejected (every later call would wait for a reply that is never filed)
+    for echo in (True, False):
+        r = ctx.tlc("MCNcReadLoop", cfg="rl.cfg", files={"rl.cfg": rl_cfg("Spec", "v2", echo, 3, False, "PROPERTY Done", errs=1)}, workers=8, timeout=1200)
+        if r["violated"] or not r["ok"]:
+            ctx.violation("C08:model:NcReadLoop-transient-error", "NcReadLoop.tla (Loop = v2, one transient read error) violates its properties:\n" + r["stdout"][-2500:], {"kind": "model"})
+            return
+    r = ctx.tlc("MCNcReadLoop", cfg="rl.cfg", files={"rl.cfg": rl_cfg("Spec", "v2", False, 2, False, "PROPERTY Done", errs=1, errloop="exit")}, workers=8, timeout=600, expect_violation=True)
+    if not r["violated"]:
+        raise ToolError("NcReadLoop.tla accepts a read loop that leaves after a transient error: Done has become vacuous")
     for loop, prompt, what in (("v1", False, "one echo dropped per iteration"), ("v0", True, "remainder examined one iteration late")):
         r = ctx.tlc("MCNcReadLoop", cfg="rl.cfg", files={"rl.cfg": rl_cfg("Spec", loop, True, 3, prompt, "")}, workers=8, timeout=600)
         if not r["violated"]:
